@@ -118,6 +118,13 @@ int main(void) {
   VP_OBS("r", r); VP_OBS("cur", CUR());
   INVARIANT();
   __CPROVER_assert(r || CUR() == pos, "match_double consumes nothing when there is no numeral");
+#ifndef REAL
+  /* functional contract used by the step-level harnesses (models/cursor_contract.h): strtod on a NUL-terminated COPY of the
+   * remaining bytes decides how far the cursor moves */
+  { u8 tmp[N + 1]; for (u64 i = 0; i < N; i++) tmp[i] = (pos + i < n) ? b[pos + i] : 0; tmp[N] = 0; u8* e_ = 0; (void)x_strtod(tmp, (u8*)&e_);
+    __CPROVER_assert((r != 0) == (e_ != tmp), "match_double succeeds iff strtod finds a numeral at the start of the remaining bytes");
+    __CPROVER_assert(CUR() == pos + (r ? (u64)(e_ - tmp) : 0), "match_double consumes exactly the numeral"); }
+#endif
 #endif
   VP_END("witness: end of harness reached");
   return 0;
